@@ -94,8 +94,18 @@ func harnessFn(name string) externalFn {
 		}
 	case "verifYield", "verifSettle": // lets every other runnable goroutine run until it blocks
 		return func(fr *frame, a []value) value {
+			// the yielding goroutine becomes runnable again only when nobody else can run
+			// (it has the lowest id, so the scheduler would otherwise prefer it at once)
 			yielded := false
-			fr.park(func() bool { r := yielded; yielded = true; return r }, "yield")
+			s := fr.i.sch
+			self := s.cur
+			fr.park(func() bool {
+				if !yielded {
+					yielded = true
+					return false
+				}
+				return s.pick(self) == nil
+			}, "yield")
 			return nil
 		}
 	case "verifTimersManual": // time.NewTimer/After no longer fire by themselves (see extNewTimer)
